@@ -19,6 +19,8 @@ pub struct CacheStats {
     pub order_dependent_entries_skipped: u64,
     /// keys recognised (in this run) as derived from state which another feature refreshes later in the same pass
     pub order_dependent_keys: std::collections::BTreeSet<String>,
+    /// opaque (not compared) entries by the name of their state key type (hook H4: names)
+    pub opaque_by_key: BTreeMap<String, u64>,
 }
 
 fn f(x: f64) -> String {
@@ -82,7 +84,14 @@ fn render(v: &Arc<dyn Any + Send + Sync>) -> Option<String> {
         let v: BTreeMap<&String, &usize> = x.iter().collect();
         return Some(format!("mstr:{v:?}"));
     }
-    None
+    // value types private to vrp-core are rendered by the crate itself (hook H4)
+    vrp_core::verif::render_private_state(v.as_ref())
+}
+
+fn note_opaque(id: &TypeId, stats: &mut CacheStats) {
+    stats.opaque_entries += 1;
+    let name = vrp_core::verif::state_type_names(id).map(|(k, v)| format!("{} = {}", k.rsplit("::").next().unwrap_or(k), v)).unwrap_or_else(|| "unknown".to_string());
+    *stats.opaque_by_key.entry(name.replace('.', "_")).or_default() += 1;
 }
 
 fn key(id: &TypeId) -> String {
@@ -103,7 +112,7 @@ fn route_digest(rc: &RouteContext, stats: &mut CacheStats) -> BTreeMap<String, S
             Some(text) => {
                 out.insert(key(&id), text);
             }
-            None => stats.opaque_entries += 1,
+            None => note_opaque(&id, stats),
         }
     }
     out
@@ -116,7 +125,7 @@ fn solution_digest(ctx: &InsertionContext, stats: &mut CacheStats) -> BTreeMap<S
             Some(text) => {
                 out.insert(key(&id), text);
             }
-            None => stats.opaque_entries += 1,
+            None => note_opaque(&id, stats),
         }
     }
     out
